@@ -23,7 +23,7 @@ Lemma macros_setValue_spec name value s :
   exists s', macros_setValue name value s = Ok (tt, s') /\
              s_macros s' = setValue_table name value (s_macros s) /\ protected s' = protected s.
 Proof.
-  intros Hs. unfold macros_setValue, bind, get. rewrite Hs. unfold setValue_table. cbv zeta.
+  intros Hs. unfold macros_setValue, bind, gets. rewrite Hs. unfold setValue_table. cbv zeta.
   destruct (str_eqb _ _ && nonempty value).
   - eexists. split; [reflexivity|]. destruct s; split; reflexivity.
   - eexists. split; [reflexivity|]. split; [|destruct s; reflexivity].
@@ -34,7 +34,7 @@ Qed.
 
 Lemma macros_setValue_skipped name value s :
   setValue_skip (s_mode s) = true -> macros_setValue name value s = Ok (tt, s).
-Proof. intros Hs. unfold macros_setValue, bind, get. rewrite Hs. reflexivity. Qed.
+Proof. intros Hs. unfold macros_setValue, bind, gets. rewrite Hs. reflexivity. Qed.
 
 Lemma assoc_get_upd_same name value ex l :
   assoc_get name (upd_macro name value ex l) =
@@ -110,7 +110,7 @@ Proof. reflexivity. Qed.
 (* with safe-mode bit 4 a Block Attributes line is ignored altogether *)
 Theorem parse_ignored_bit4 fuel attrs s :
   parse_skip (s_mode s) = true -> blockattributes_parse fuel attrs s = Ok (true, s).
-Proof. intros H. unfold blockattributes_parse, bind, get. rewrite H. reflexivity. Qed.
+Proof. intros H. unfold blockattributes_parse, bind, gets. rewrite H. reflexivity. Qed.
 
 (* in a non-zero safe mode raw HTML attributes are never accumulated *)
 Definition no_raw_attrs (m0 : Z) (s : session) : Prop := s_mode s = m0 /\ p_attrs s = [].
